@@ -354,7 +354,12 @@ func genRewrite(r *rng.R) corr.Case {
 		if r.Chance(1, 12) {
 			pos = r.PickInt(-1, total+2, total+9)
 		}
-		if r.Chance(1, 3) {
+		if r.Chance(1, 4) && total > 0 {
+			// the payload is a window of the buffer itself (moving a field inside the frame), often overlapping
+			from := r.Intn(total + 1)
+			to := from + r.Intn(total-from+1)
+			lines = append(lines, fmt.Sprintf("rewriteself %d %d %d", pos, from, to))
+		} else if r.Chance(1, 3) {
 			lines = append(lines, fmt.Sprintf("rewriteu32 %d %d", pos, genU(r, 32)))
 		} else {
 			n := r.Range(0, 6)
@@ -409,6 +414,42 @@ func genStream(r *rng.R, garbage bool) corr.Case {
 		tag = "stream-garbage"
 	}
 	return corr.Case{Tag: tag, Lines: lines}
+}
+
+// genRewriteBig: ReWrite / ReWriteU32 on buffers of 64 KiB … 256 KiB: the length-placeholder idiom (u32 at the front
+// patched after a big body), payloads at the far end, big payloads, and payloads that alias the buffer.
+func genRewriteBig(r *rng.R) corr.Case {
+	n := r.PickInt(65532, 65533, 65536, 65537, 70000, 131072, 200000, 262144)
+	lines := []string{genNew(r), "wu32 0", fmt.Sprintf("wraw p%d:%d", r.Intn(1000), n)}
+	total := n + 4
+	lines = append(lines, fmt.Sprintf("rewriteu32 0 %d", n))
+	for i := r.Range(1, 4); i > 0; i-- {
+		switch r.Intn(5) {
+		case 0: // near the end
+			k := r.Range(0, 8)
+			lines = append(lines, fmt.Sprintf("rewrite %d %s", total-k-r.Intn(3), showRawHex(genBytes(r, k))))
+		case 1: // a big payload
+			k := r.PickInt(4096, 65536, 65537, total/2)
+			if k > total-8 {
+				k = total - 8
+			}
+			lines = append(lines, fmt.Sprintf("rewrite %d p%d:%d", r.Intn(total-k+1), r.Intn(1000), k))
+		case 2: // aliasing, overlapping
+			k := r.PickInt(6, 100, 4096, 65537)
+			if k > total-8 {
+				k = total - 8
+			}
+			from := r.Intn(total - k)
+			lines = append(lines, fmt.Sprintf("rewriteself %d %d %d", from+r.Range(1, 5), from, from+k))
+		case 3: // aliasing, far apart
+			k := r.PickInt(4, 1000, 30000)
+			lines = append(lines, fmt.Sprintf("rewriteself %d %d %d", total-k, 0, k))
+		default:
+			lines = append(lines, fmt.Sprintf("rewriteu32 %d %d", r.PickInt(0, 1, 65532, 65536, total-4), genU(r, 32)))
+		}
+	}
+	lines = append(lines, "bytes", "ru32", fmt.Sprintf("readn %d", n), "len")
+	return corr.Case{Tag: "rewrite-big", Lines: lines}
 }
 
 // genBig: values of 4 KiB … 256 KiB (1 MiB in thorough/search) as pattern tokens, through the buffer and through
@@ -602,6 +643,19 @@ func fixedCases() []corr.Case {
 		c("big-fixed", "new", "wlstr 65536 p9:65536", "wu8 9", "tostream 0 r12345", "rlstr 65536", "ru8"),
 		c("big-fixed", "new", "wraw p10:200000", "tostream 1 r7", "readn 200000", "ru8"),
 		c("big-fixed", "tload 65539 wstr p11:65536", "rstr", "len", "tload 65540 wstr p11:65536", "rstr", "len"),
+		// the package's sentinel errors: non-nil, distinct, with their texts
+		c("sentinels", "sentinels", "load 0102", "ru32", "sentinels"),
+		// ReWrite on big buffers, and with a payload that aliases the buffer's own storage
+		c("rewrite-alias-fixed", "new", "wraw 0102030405060708", "rewriteself 2 0 6", "bytes"),
+		c("rewrite-alias-fixed", "new", "wraw 0102030405060708", "rewriteself 0 2 8", "bytes", "rewriteself 7 0 6", "rewriteself 8 0 0", "rewriteself 9 0 0", "rewriteself 2 0 9"),
+		c("rewrite-alias-fixed", "new", "wraw 0102030405060708", "ru16", "rewriteself 1 0 5", "bytes", "ru32"),
+		c("rewrite-big-fixed", "new", "wu32 0", "wraw p1:70000", "rewriteu32 0 70000", "ru32", "bytes", "len"),
+		c("rewrite-big-fixed", "new", "wraw p2:70000", "rewrite 69990 0102030405060708090a", "rewrite 0 p3:66000", "rewrite 65530 ffee", "bytes"),
+		c("rewrite-big-fixed", "new", "wraw p4:200000", "rewriteself 3 0 70000", "bytes", "rewriteself 100000 0 100000", "bytes"),
+		// single values above 1 MiB (the oracle answers by theorem `bigrt_answer`, without materialising them)
+		c("huge-value", "bigrt str 1 2097152 buf"),
+		c("huge-value", "bigrt str 2 2097153 s65536"),
+		c("huge-value", "bigrt raw 3 1048577 s4096", "bigrt lstr 4 1048577 buf"),
 		// values stay what they were: every slice handed out by a raw reader is looked at again after later reads
 		c("retain-fixed", "sload 0 0102030405060708", "zreadn 3", "zreadn 3", "recheck", "ru16", "recheck"),
 		c("retain-fixed", "sload 0 0102030405060708", "zreadn 2", "rstr", "recheck"),
@@ -652,8 +706,28 @@ func spec() corr.Spec {
 			return 40000 // search: same classes, other seeds' worth of cases; bounded so that a run through S7 stays < 2 min
 		},
 		Gen: func(r *rng.R, tier string, i int) corr.Case {
-			if (tier == "quick" && i%400 == 399) || (tier != "quick" && i%150 == 149) {
+			// big values are costly for the oracle (it runs on lists): 1 in 400 cases, 1 in 150 in thorough
+			if (tier != "thorough" && i%400 == 399) || (tier == "thorough" && i%150 == 149) {
 				return genBig(r, tier)
+			}
+			if (tier != "thorough" && i%400 == 199) || (tier == "thorough" && i%150 == 74) {
+				return genRewriteBig(r)
+			}
+			if tier != "quick" {
+				// single values far above 1 MiB: 16 MiB+1 and 64 MiB+1 once per run, a few of 1..4 MiB
+				switch {
+				case i == 5:
+					return corr.Case{Tag: "huge-value", Lines: []string{"bigrt str 5 16777217 buf"}}
+				case i == 6:
+					return corr.Case{Tag: "huge-value", Lines: []string{"bigrt str 7 67108865 s1048576"}}
+				case i == 7 && tier == "thorough":
+					return corr.Case{Tag: "huge-value", Lines: []string{"bigrt raw 8 67108865 buf"}}
+				case i == 8 && tier == "thorough":
+					return corr.Case{Tag: "huge-value", Lines: []string{"bigrt raw 6 16777217 s65536"}}
+				case i%5000 == 17:
+					return corr.Case{Tag: "huge-value", Lines: []string{fmt.Sprintf("bigrt %s %d %d %s", r.Pick("str", "raw", "lstr"), r.Intn(1000),
+						r.PickInt(1048577, 2097152, 3000000, 4194305), r.Pick("buf", "s4096", "s65536", "s1048576"))}}
+				}
 			}
 			if i%20 == 13 {
 				return genRetain(r)
@@ -692,6 +766,8 @@ func spec() corr.Spec {
 			"(rewrite) ReWrite/ReWriteU32 at in-range, edge and out-of-range positions; (stream) the same bytes and read program under 1-byte, whole and random chunkings, " +
 			"with and without EOF-with-data; (malformed) ill-formed lines; (constructors) buffers made by NewBufferX, NewSizedBufferX(0|1|7|64|4096), NewReadableBufferX, readers by NewReaderX; " +
 			"(big) strings / raw bytes of 4095..262144 bytes (1 MiB beyond quick) through the buffer, cut near the end, and through streams chunked 1, 2, 4095, 4096, 65536, 1 MiB or randomly; " +
+			"(rewrite-big / rewrite-alias) ReWrite and ReWriteU32 on buffers of 64..256 KiB incl. the length-placeholder idiom, payloads > 64 KiB and payloads that alias the buffer (`rewriteself`); " +
+			"(huge-value) single values of 1 MiB+1 .. 2 MiB in quick, 16 MiB+1 and 64 MiB+1 in thorough/search (`bigrt`), buffer and stream; (sentinels) the error variables are non-nil, distinct, with their texts; " +
 			"(retain) several raw / string fields in a row (0..9000 bytes, around 64 and 4096) from a buffer or a stream, every slice handed out looked at again by `recheck` and at the end of the script; " +
 			"(huge-prefix-probe, T) length fields 2^25..2^32-1 read by the real ReaderX in a memory-capped child process. Non-trivial = at least one read returned a value; distinct = distinct script text",
 		Assumptions: []string{
